@@ -92,6 +92,15 @@ def contains_sym(x, depth=6, budget=None, seen=None):
     return False
 
 
+def symkeyish(k):
+    """a dict key / set member that needs the symbolic-key treatment: a symbolic scalar, or a tuple holding one"""
+    return isinstance(k, SYM) or (isinstance(k, tuple) and contains_sym(k, depth=3))
+
+
+def _meets_symkeys(k, cont):
+    return isinstance(k, (str, tuple)) and any(isinstance(x, SymKey) for x in cont)
+
+
 def all_clean(args, kwargs):
     for a in args:
         if contains_sym(a):
@@ -315,7 +324,7 @@ def getitem(I, o, k):
         return stubs.SymBufView(o, lo, hi)
     if isinstance(o, str) and (isinstance(k, SymInt) or (isinstance(k, slice) and contains_sym([k.start, k.stop, k.step]))):
         return str_getitem(I, SymStr([Atom.lit(o)]), k)
-    if isinstance(o, dict) and (isinstance(k, SYM) or (isinstance(k, str) and any(isinstance(x, SymKey) for x in o))):
+    if isinstance(o, dict) and (symkeyish(k) or _meets_symkeys(k, o)):
         return dict_lookup(I, o, k, None, True)
     if isinstance(o, (list, tuple)) and isinstance(k, SymInt):
         n = len(o)
@@ -341,7 +350,7 @@ def _find_dunder(cls, name):
 
 
 def setitem(I, o, k, v):
-    if isinstance(k, SYM):
+    if symkeyish(k) and (isinstance(k, SYM) or isinstance(o, dict)):
         if isinstance(o, dict):
             k = dict_key(I, o, k)
         else:
@@ -355,7 +364,7 @@ def setitem(I, o, k, v):
 
 
 def delitem(I, o, k):
-    if isinstance(k, SYM):
+    if symkeyish(k) and (isinstance(k, SYM) or isinstance(o, dict)):
         if isinstance(o, dict):
             k = dict_key(I, o, k)
         else:
@@ -569,7 +578,7 @@ def contains(I, item, cont):
             return mkbool(Or(*parts))
         return I.native(operator.contains, cont, item)
     if isinstance(cont, (dict, set, frozenset)) or type(cont).__name__ in ("dict_keys",):
-        if isinstance(item, SYM) or (isinstance(item, str) and any(isinstance(x, SymKey) for x in cont)):
+        if symkeyish(item) or _meets_symkeys(item, cont):
             keys = [x for x in cont if isinstance(x, pytype(item)) or isinstance(x, SymKey)]
             return mkbool(Or(*[bterm(I.eq(item, x.s if isinstance(x, SymKey) else x)) for x in keys]))
         return I.native(operator.contains, cont, item)
@@ -1696,14 +1705,14 @@ def _list_search(I, lst, args, kwargs):
 
 @method_model(dict, "get")
 def _dict_get(I, d, args, kwargs):
-    if isinstance(args[0], SYM) or (isinstance(args[0], str) and any(isinstance(x, SymKey) for x in d)):
+    if symkeyish(args[0]) or _meets_symkeys(args[0], d):
         return dict_lookup(I, d, args[0], args[1] if len(args) > 1 else None, False)
     return I.native(d.get, *args)
 
 
 def _dict_keyed_factory(name):
     def m(I, d, args, kwargs):
-        if args and isinstance(args[0], SYM):
+        if args and symkeyish(args[0]):
             args = [dict_key(I, d, args[0])] + list(args[1:])
         if args and contains_sym(args[0]) and not isinstance(args[0], SymKey):
             I.unsupported("dict key containing symbolic data")
